@@ -79,6 +79,11 @@ func H_C05_forest() {
 		if i == 0 {
 			parent[0] = -1
 			src = fmt.Sprintf("o0 := %s", lit)
+			if rootKind > 0 {
+				// the root is a child of a concrete str / arr / int value: resolution starts at the
+				// receiver all the same (own and shadowing properties first)
+				src = fmt.Sprintf("o0 := %s.bear(%s)", []string{"", `"abc"`, `[1, 2]`, `3`}[rootKind], lit)
+			}
 		} else {
 			p := rt.Choice(i)
 			if rt.Bool() {
@@ -133,7 +138,9 @@ func H_C05_forest() {
 				}
 			}
 			r := h.EvalNoPanic(fmt.Sprintf("o%d.kindOf?(o%d)", j, k))
-			rt.Assert((r == object.BuiltInTrue) == in && (r == object.BuiltInTrue || r == object.BuiltInFalse), "kindOf? must agree with the proto chain")
+			// (kindOf? compares with ==; == between children of a non-object value is outside the
+			// stated domains of C05 and C18, so it is asserted for object-literal forests only)
+			rt.Assert(rootKind > 0 || ((r == object.BuiltInTrue) == in && (r == object.BuiltInTrue || r == object.BuiltInFalse)), "kindOf? must agree with the proto chain")
 		}
 		// keys: own public names, sorted
 		want := []string{"id"}
